@@ -22,8 +22,13 @@ legs: MC   TLC explores all histories of <= 5 calls (parse / execute(object) / e
       C2S  random histories of <= 40 calls (modelled statements and ledger statements outside the model, on two
            connections over the same data) are recorded and replayed by TLC through BQLSession's steps
            (Trace_BQLSession).  Every ledger statement is first (and last) executed on a connection of its own, once
-           with its parameter values written as literals, and once more in a NEW process (nothing else executed
-           there, qualified statements first): TLC holds every other result against those history-free ones.  The
+           with its parameter values written as literals, and once more in each of two NEW processes (nothing else
+           executed there; one takes the statements last to first, the other first to last, so that two statements
+           sharing anything process-wide meet it in either order): TLC holds every other result against those.  The
+           statements outside the model include a family that hands the SAME string constants -- as parameters and as
+           literals -- to operators and functions that read them differently (a regular expression searched ignoring
+           case: ~, !~, has_account; searched exactly: grep, grepn, subst, findfirst; a plain string), over data where
+           letter case decides what is found.  The
            statements outside the model include aggregates and functions over a table whose rows hold STORED
            inventories (#h: mutable objects; the data are compared by value after every call) and statements that
            expose the literal kind of a parameter, with parameter values the host language calls equal although they
@@ -309,6 +314,35 @@ HOLDINGS_STMTS = [
 ]
 
 
+# ---- constants shared between statements ------------------------------------------------------------------
+# The same string constant handed, by DIFFERENT statements (and by one statement twice), to operators and functions
+# that read it differently: as a regular expression searched ignoring case (~, !~, has_account), as a regular
+# expression searched / matched exactly (grep, grepn, subst, findfirst), as a plain string (=, length, upper) -- as a
+# parameter and (through the literal twins and the statements below that spell it out) as a literal.  The ledger's
+# account names are capitalised: for every constant here letter case decides what is found.  A result is a function of
+# the statement, its parameters and the data: which statement met a constant first -- on the connection or in the
+# process -- must not show.  The list starts with users of one reading and ends with users of the other: the two
+# reference processes (pristine_refs, which run it backwards and forwards) meet every constant through different readings
+# first.
+SHARED_CONSTS = ['bofa', 'expenses:food', '(check)ing', 'us:.*cash', 'income', 'Assets']
+_ONE = [(c,) for c in SHARED_CONSTS]
+SHARED_STMTS = [
+    ("SELECT account, count(*) AS n FROM #postings WHERE account ~ %s GROUP BY account ORDER BY account", _ONE),
+    ("SELECT date, lineno, has_account(%(p)s) AS h FROM #postings ORDER BY date, lineno, account, number", [{'p': c} for c in SHARED_CONSTS]),
+    ("SELECT DISTINCT account, account = %s AS e, length(%s) AS n, upper(%s) AS u FROM #postings ORDER BY account",
+     [(c, c, c) for c in SHARED_CONSTS[:3]]),
+    ("SELECT DISTINCT lower(account) AS a, grep(%s, lower(account)) AS g FROM #postings WHERE lower(account) ~ %s ORDER BY a",
+     [('Assets', 'Assets'), ('ASSETS:us', 'bofa'), ('bofa', 'ASSETS:us'), ('Income', 'Income')]),
+    ("SELECT DISTINCT account, grep('bofa', account) AS g, subst('expenses:food', 'X', account) AS u FROM #postings "
+     "WHERE account ~ 'expenses:food' OR account ~ 'bofa' OR has_account('(check)ing') ORDER BY account", [()]),
+    ("SELECT DISTINCT account FROM #postings WHERE account !~ %s ORDER BY account", _ONE),
+    ("SELECT date, lineno, findfirst(%s, other_accounts) AS f FROM #postings ORDER BY date, lineno, account, number", _ONE),
+    ("SELECT DISTINCT account, grepn(%(p)s, account, 0) AS g, subst(%(p)s, '_', account) AS u FROM #postings ORDER BY account",
+     [{'p': c} for c in SHARED_CONSTS]),
+    ("SELECT DISTINCT account, grep(%s, account) AS g FROM #postings ORDER BY account", _ONE),
+]
+
+
 def literal_twin(text, params):
     """the statement with its parameter values written as literals (k-th `%s` <- k-th value, `%(name)s` <- the value of
     that name), or None when some value has no literal that denotes exactly it (a Decimal without fractional digits)"""
@@ -352,19 +386,23 @@ def ledger_statements(entries):
         ("SELECT date, type FROM #entries WHERE date < %%(d)s" % (), [{'d': d1}, {'d': d2}]),
         ("BALANCES FROM CLOSE ON %s" % d2, none),
         ("JOURNAL 'Assets:US:BofA:Checking' FROM OPEN ON %s" % d1, none),
-    ] + HOLDINGS_STMTS
+    ] + HOLDINGS_STMTS + SHARED_STMTS
 
 
-def pristine_refs(seed, ntxn):
-    """every ledger statement x parameters on a connection of its own, last statement first (the qualified ones before
-    the plain ones) -- run in a NEW process (start_pristine): nothing else has been executed there"""
+def pristine_refs(seed, ntxn, backwards=True, only=None):
+    """every ledger statement x parameters on a connection of its own -- run in a NEW process (start_pristine): nothing
+    else has been executed there.  backwards: last statement first (the qualified ones before the plain ones), otherwise
+    in the order of the list: two statements that share anything process-wide meet it in either order"""
     import beanquery
     entries, errors, options = c08mod.example_ledger(seed, ntxn)
     stmts = ledger_statements(entries)
     out = []
-    for k in reversed(range(len(stmts))):
+    order = (lambda n: reversed(range(n))) if backwards else range
+    for k in order(len(stmts)):
         text, plist = stmts[k]
-        for i in reversed(range(len(plist))):
+        for i in order(len(plist)):
+            if only is not None and [k, i] != list(only):
+                continue
             conn = beanquery.connect('beancount:', entries=entries, errors=errors, options=options)
             conn.tables['h'] = holdings_table(holdings_rows())
             cur = conn.cursor()
@@ -377,12 +415,12 @@ def pristine_refs(seed, ntxn):
     return out
 
 
-def start_pristine(ctx, ntxn):
+def start_pristine(ctx, ntxn, backwards=True, only=None):
     import subprocess
     import sys
     from harness import core
     code = ('import json; from harness import core; core.bootstrap_repo(); from harness.props import c09; '
-            'print(json.dumps(c09.pristine_refs(%d, %d)))' % (ctx.seed, ntxn))
+            'print(json.dumps(c09.pristine_refs(%d, %d, %r, %r)))' % (ctx.seed, ntxn, backwards, only))
     return subprocess.Popen([sys.executable, '-c', code], cwd=core.VERIF, stdout=subprocess.PIPE, stderr=subprocess.PIPE, text=True)
 
 
@@ -1022,7 +1060,8 @@ def c2s(ctx):
     """random histories of <= 40 calls, recorded and judged by TLC"""
     r = ctx.tlc('Gen_BQLSession', 'Gen_BQLSession_setup9.cfg', leg='GEN-setup', workers=1)
     setup = r.printed[0]
-    pristine = start_pristine(ctx, ctx.pick(40, 120))       # runs beside the recording
+    # (run beside the recording: the statements last to first, and first to last)
+    pristine = [(order, start_pristine(ctx, ctx.pick(40, 120), order == 'backwards')) for order in ('backwards', 'forwards')]
     sess = Session(ctx, setup)
     bm.install_tables(sess.conn2, sess.tabs, sess.st)
     sess.leg = 'C2S'
@@ -1044,11 +1083,11 @@ def c2s(ctx):
                          else {'kind': 'map', 'seq': [], 'map': [[k, ['i', 0]] for k in p]}) for p in plist])
         lobjs.append((text, plist))
     path = ctx.path('c09-trace.ndjson')
-    nhist = ctx.pick(36, 600)      # (the first parse of a statement no longer takes a step of its own: ~20 calls per history)
+    nhist = ctx.pick(40, 600)      # (the first parse of a statement no longer takes a step of its own: ~20 calls per history)
     nlines = 1
     ncalls = 0
     eid = 0
-    nfresh = nliteral = nsweep = 0
+    nfresh = nliteral = nsweep = npristine = 0
 
     def literal_events(f):
         """every ledger statement x parameters with the values written as literals, on a connection of its own: what the
@@ -1146,12 +1185,16 @@ def c2s(ctx):
         f.write(json.dumps({'op': 'begin', 'id': eid}) + '\n')
         nlines += 1
         fresh_events(f)
-        # and what a NEW process returned for them (nothing else executed there, the qualified statements first)
-        for k, i, res in collect_pristine(pristine):
-            eid += 1
-            f.write(json.dumps({'op': 'fresh', 'id': eid, 's': nmod + k + 1, 'ps': [i + 1], 'res': res, 'same': True, 'process': 'new'}) + '\n')
-            nlines += 1
-            nfresh += 1
+        # and what NEW processes returned for them (nothing else executed there; one took the statements last to first --
+        # the qualified ones first --, the other first to last)
+        for order, proc in pristine:
+            for k, i, res in collect_pristine(proc):
+                eid += 1
+                f.write(json.dumps({'op': 'fresh', 'id': eid, 's': nmod + k + 1, 'ps': [i + 1], 'res': res, 'same': True,
+                                    'process': 'new', 'order': order}) + '\n')
+                nlines += 1
+                nfresh += 1
+                npristine += 1
         # the data change: #h is replaced on the long-lived connections.  From here on a result is a function of (text,
         # parameters, the NEW data) -- TLC forgets what it has seen --: nothing executed (compiled, cached) before shows
         sess.new_epoch()
@@ -1205,7 +1248,8 @@ def c2s(ctx):
         ctx.violation('data-mutated:end', 'source tables / ledger entries differ at the end of the recording', {'kind': 'end'}, 'C2S')
     ctx.traces += nlines - 1 - len(rejected)
     ctx.leg('C2S', histories=nhist, lines=nlines - 1, calls=ncalls, fresh_connection_calls=nfresh, ledger_statements=len(lobjs),
-            literal_twins=nliteral, sweep_calls=nsweep,
+            literal_twins=nliteral, sweep_calls=nsweep, new_process_calls=npristine,
+            shared_constant_statements=len(SHARED_STMTS),
             fold_events=len(folds), rejected=len(rejected), **sess.counts)
 
 
@@ -1217,8 +1261,9 @@ def run(ctx):
                         'execute(text) and executemany mostly receive a fresh copy of the statement the real parser produced '
                         'for that text (TatSu costs 10-50 ms); a fixed fraction goes through the real parser',
                         'ledger statements are outside the model: judged as "result is a function of (text, params, entries)" -- by '
-                        'TLC over the recorded calls (history-free executions on connections of their own, in this and in a new '
-                        'process, included), and against a fresh connection whenever one runs between the calls of a replayed history',
+                        'TLC over the recorded calls (history-free executions on connections of their own, in this process and in '
+                        'two new ones that take the statements in opposite orders, included), and against a fresh connection '
+                        'whenever one runs between the calls of a replayed history',
                         'source data are compared by value (repr of every cell of #h, == on ledger entries and a deep copy of them) '
                         'before and after every call',
                         'a Decimal without fractional digits has no literal denoting exactly it: such parameter sets get no literal twin',
@@ -1316,6 +1361,24 @@ def replay(ctx, rep):
         print('replay: after the history :', json.dumps(a)[:300])
         print('replay: alone, fresh      :', json.dumps(b)[:300])
         bad = a != b or (bool(case['spec'].get('matches')) and not a['ok'])     # matching parameters never fail
+        print('replay:', 'MISMATCH reproduced' if bad else 'no mismatch')
+        return 1 if bad else 0
+    if case.get('kind') == 'c2s' and case['event'].get('process') == 'new':
+        # the statement as the ONLY one a new process executes vs after the others, in the recorded order, in another
+        ev = case['event']
+        ntxn = ctx.pick(40, 120)
+        stmts = ledger_statements(c08mod.example_ledger(ctx.seed, ntxn)[0])
+        k, i = ev['s'] - 1 - len(case['setup']['stmts']), ev['ps'][0] - 1
+        alone = collect_pristine(start_pristine(ctx, ntxn, True, [k, i]))
+        after = [r for r in collect_pristine(start_pristine(ctx, ntxn, ev.get('order') != 'forwards')) if r[:2] == [k, i]]
+        print('replay:', stmts[k][0], repr(stmts[k][1][i]))
+        print('replay: the only statement of a new process           :', json.dumps(alone[0][2])[:200])
+        print('replay: in a new process after the others (%s) :' % ev.get('order', 'backwards'), json.dumps(after[0][2])[:200])
+        bad = alone[0][2] != after[0][2]
+        if not bad:
+            other = [r for r in collect_pristine(start_pristine(ctx, ntxn, ev.get('order') == 'forwards')) if r[:2] == [k, i]]
+            print('replay: in a new process after the others (other order):', json.dumps(other[0][2])[:200])
+            bad = alone[0][2] != other[0][2]
         print('replay:', 'MISMATCH reproduced' if bad else 'no mismatch')
         return 1 if bad else 0
     if case.get('kind') == 'c2s' and case['event'].get('literal'):
